@@ -199,21 +199,6 @@ inductive DeepEq : Val → Val → Prop
   | objCons (k : String) (x y : Val) (xs ys : List (String × Val)) :
       DeepEq x y → DeepEq (.obj xs) (.obj ys) → DeepEq (.obj ((k, x) :: xs)) (.obj ((k, y) :: ys))
 
--- JSON values (no expression references inside)
-mutual
-def Val.isJson : Val → Bool
-  | .arr xs => valsJson xs
-  | .obj kvs => kvsJson kvs
-  | .expref _ => false
-  | _ => true
-def valsJson : List Val → Bool
-  | [] => true
-  | v :: vs => v.isJson && valsJson vs
-def kvsJson : List (String × Val) → Bool
-  | [] => true
-  | (_, v) :: r => v.isJson && kvsJson r
-end
-
 mutual
 theorem beq_imp_deepEq : ∀ a b : Val, a.isJson = true → Val.beq a b = true → DeepEq a b
   | .null, b, _, h => by cases b <;> simp_all [Val.beq]; exact .null
